@@ -273,6 +273,11 @@ def run(chk):
         dispatch(chk, ex, found)
     except X.Unsupported as e:
         chk.undecided.append(("countmin.load", "unsupported construct in glue: %s" % e))
+    # 'every query equal to the original's': for heavy hitters query() goes through a cache whose
+    # bookkeeping is not saved - its rows (C13) make the answer a function of the tables alone
+    from . import C13
+
+    C13.query_part(chk, found)
     bad = found()
     if bad:
         chk.violation("save-load:bounded:oracle", {"verdict": "bounded oracle failed"}, bad)
